@@ -63,8 +63,9 @@ namespace occa {
     if ((cIndex < length) && (it != leaves.end())) {
       result_t result = it->second.get(c, cIndex + 1, length);
       if (!result.success() && (0 <= valueIndex)) {
+        // The match ends at this node: c[0..cIndex) is the stored key
         return result_t(const_cast<trieNode*>(this),
-                        cIndex + 1,
+                        cIndex,
                         valueIndex);
       }
       return result;
